@@ -163,6 +163,7 @@ pub fn generate(r: &mut Rng, tier: Tier, run_index_hint: u64) -> Scenario {
         history: vec![],
         t2: t2spec,
         content_faults: content,
+        expected_levels: std::collections::BTreeMap::new(),
         note: format!("{note}gen={g:?} cut={c:?}"),
     }
 }
